@@ -34,6 +34,12 @@ Open Scope nat_scope.
                         if rev:
                             g = g[::-1]
                         out.append(g)
+        # many-phase graphs: k disjoint chains whose augmenting paths have the k distinct lengths 3, 5, ..., 2k+1 (greedy leaves one free
+        # vertex per chain); Hopcroft-Karp needs one phase per length, so k phases on k(k+3)/2 left vertices
+        for k in (2, 3, 4, 5, 6, 7, 8, 9):
+            out.append(self.chains(list(range(1, k + 1))))
+            out.append(self.chains(list(range(k, 0, -1))))
+        out.append(self.chains([3, 3, 5, 5, 7, 7, 2, 2]))
         # de-duplicate
         seen, res = set(), []
         for g in out:
@@ -43,9 +49,48 @@ Open Scope nat_scope.
                 res.append(g)
         return res
 
+    @staticmethod
+    def chains(ms, rng=None):
+        """disjoint chains; chain with parameter m has left a_0..a_m, right b_0..b_m, a_i: [b_{i+1}, b_i] (i < m), a_m: [b_m]: greedy
+        (in key order) matches a_i - b_{i+1} and leaves a_m and b_0 free; the only augmenting path has 2m+1 edges"""
+        g, base = [], 0
+        for m in ms:
+            for i in range(m + 1):
+                vs = [base + i + 1, base + i] if i < m else [base + m]
+                g.append([base + i, vs])
+            base += m + 1
+        if rng is not None and rng.random() < 0.5:
+            # interleave the chains (keeps the order inside each chain, hence what greedy does)
+            per, base = [], 0
+            for m in ms:
+                per.append([x for x in g if base <= x[0] <= base + m])
+                base += m + 1
+            g = []
+            while any(per):
+                c = rng.choice([c for c in per if c])
+                g.append(c.pop(0))
+        return g
+
     def gen(self, rng, n):
         cases = []
         for t in range(n):
+            kind = rng.random()
+            if kind < 0.04:
+                k = rng.randint(2, 8)
+                ms = [rng.randint(1, 8) for _ in range(k)] if rng.random() < 0.5 else rng.sample(range(1, 10), k)
+                cases.append(self.chains(ms, rng))
+                continue
+            if kind < 0.08:        # larger random graphs
+                nu, nv = rng.randint(10, 30), rng.randint(10, 30)
+                dens = rng.choice([0.05, 0.1, 0.2])
+                g = []
+                for u in range(nu):
+                    vs = [v for v in range(nv) if rng.random() < dens]
+                    rng.shuffle(vs)
+                    if vs:
+                        g.append([u, vs])
+                cases.append(g)
+                continue
             kind = rng.random()
             nu = rng.randint(0, 9)
             nv = rng.randint(0, 9)
